@@ -9,6 +9,7 @@ import (
 
 	"github.com/ava-labs/avalanchego/utils/set"
 
+	"github.com/ava-labs/hypersdk/internal/verifhook"
 	"github.com/ava-labs/hypersdk/state"
 
 	uatomic "go.uber.org/atomic"
@@ -99,6 +100,7 @@ func (e *Executor) runTask(t *task) {
 			rt.l.Unlock()
 		}
 		t.reading = nil
+		verifhook.Point("executor.task.afterReaders")
 
 		// Notify blocked tasks that they can execute
 		t.l.Lock()
@@ -122,6 +124,7 @@ func (e *Executor) runTask(t *task) {
 	}
 
 	// Execute the task
+	verifhook.Point("executor.task.beforeExec")
 	if err := t.f(); err != nil {
 		e.err.CompareAndSwap(nil, err)
 		return
@@ -201,10 +204,12 @@ func (e *Executor) Run(keys state.Keys, f func() error) {
 				dependencies.Add(lt.id)
 			}
 			lt.l.Unlock()
+			verifhook.Point("executor.run.afterKey")
 			continue
 		}
 		e.nodes[k] = t
 	}
+	verifhook.Point("executor.run.beforeAdjust")
 
 	// Adjust dependency traker and execute if necessary
 	difference := e.maxDependencies - int64(dependencies.Len())
